@@ -30,6 +30,8 @@ T = {
                                       ("creator", None, {"id": "c1"}, [("individualName", None, {}, [("surName", "s", {}, [])])]),
                                       ("contact", None, {}, [("references", "c1", {}, [])])]),
     "surName": ("surName", "n", {}, []),
+    "dataset_emptyref": ("dataset", None, {}, [("title", "t", {}, []), ("creator", None, {"id": "c1"}, []),
+                                               ("contact", None, {}, [("references", "c1", {}, [])])]),
 }
 DOCS = {
     "comment": "<individualName><surName>a</surName><!-- c --><bogus/></individualName>",
@@ -38,7 +40,7 @@ DOCS = {
 }
 RULE_OF = {"creator": "party", "contact": "party"}
 CAP = {"quick": 10, "thorough": 12}
-DEPTH = {"quick": 6, "thorough": 7}
+DEPTH = {"quick": 5, "thorough": 7}
 
 
 def tsize(t):
@@ -57,6 +59,7 @@ class World:
         self.reg = []         # model: registered?
         self.alive = []       # model: still part of a held tree (not discarded)
         self.all_ids = []
+        self.forgotten = []   # [id, name, registered?] of nodes the harness holds NO reference to (only the registry does)
 
     # -- helpers ----------------------------------------------------------
     def idx(self, node):
@@ -108,14 +111,14 @@ class World:
         return out
 
     def n_alive(self):
-        return sum(1 for a in self.alive if a)
+        return sum(1 for a in self.alive if a) + sum(1 for f in self.forgotten if f[2])
 
     def canon(self):
         def c(i):
             h = self.H[i]
             return (h.name, self.reg[i], h.content if h.name == "references" else None,
                     h.attributes.get("id"), tuple(c(self.idx(k)) for k in h.children))
-        return repr(sorted(c(r) for r in self.roots()))
+        return repr((sorted(c(r) for r in self.roots()), sorted((f[1], f[2], f[3]) for f in self.forgotten)))
 
     # -- enabled operations (from the model) ------------------------------
     def enabled(self, cap):
@@ -127,6 +130,13 @@ class World:
         for k in DOCS:
             if n + DOC_SIZE[k] <= cap:
                 ops.append(["import", k])
+        if not self.forgotten:
+            ops.append(["create_forget", "creator"])
+            ops.append(["import_forget", "comment"])
+        roots_f = [i for i, f in enumerate(self.forgotten) if f[2] and f[3]]
+        for i in roots_f:
+            ops.append(["delete_forgotten", i, True])
+            ops.append(["delete_forgotten", i, False])
         tp = self.true_parent()
         roots = self.roots()
         alive = [i for i in range(len(self.H)) if self.alive[i]]
@@ -205,6 +215,38 @@ class World:
                 new = self.adopt(root)
                 if len(new) != DOC_SIZE[op[1]]:
                     probs.append(problem("import_node_count", case, expected=DOC_SIZE[op[1]], observed=len(new), op=kind))
+            elif kind in ("create_forget", "import_forget"):
+                import gc
+                if kind == "create_forget":
+                    def mk(t):
+                        n = Node(t[0], content=t[1])
+                        for k, v in t[2].items():
+                            n.add_attribute(k, v)
+                        for c in t[3]:
+                            n.add_child(mk(c))
+                        return n
+                    root = mk(T[op[1]])
+                else:
+                    root = metapype_io.from_xml(DOCS[op[1]])
+                stack = [(root, True)]
+                while stack:
+                    x, is_root = stack.pop()
+                    self.forgotten.append([x.id, x.name, True, is_root, [c.id for c in x.children]])
+                    self.all_ids.append(x.id)
+                    stack.extend((c, False) for c in x.children)
+                del root, x, stack
+            elif kind == "delete_forgotten":
+                f = self.forgotten[op[1]]
+                Node.delete_node_instance(f[0], children=op[2])
+                f[2] = False
+                if op[2]:
+                    todo = list(f[4])
+                    while todo:
+                        cid = todo.pop()
+                        for g in self.forgotten:
+                            if g[0] == cid:
+                                g[2] = False
+                                todo.extend(g[4])
             elif kind == "copy":
                 c = H[op[1]].copy()
                 self.adopt(c)
@@ -244,8 +286,12 @@ class World:
             probs.append(problem("operation_raised", case, expected="no exception", observed=repr(e),
                                  op=kind, exc=type(e).__name__))
             return probs
-        # invariants
-        exp_ids = {H[i].id for i in range(len(H)) if self.reg[i]}
+        # invariants (after a cycle collection when some nodes are referenced by nothing but the registry: a
+        # parent<->child cycle keeps them alive until then; everything allocated before is frozen, so this is cheap)
+        if self.forgotten and case:
+            import gc
+            gc.collect()
+        exp_ids = {H[i].id for i in range(len(H)) if self.reg[i]} | {f[0] for f in self.forgotten if f[2]}
         got = set(Node.store)
         if got != exp_ids:
             extra = sorted(got - exp_ids)
@@ -254,6 +300,9 @@ class World:
                 for h in H:
                     if h.id == idv:
                         return h.name
+                for f in self.forgotten:
+                    if f[0] == idv:
+                        return f[1] + " (only the registry refers to it)"
                 return "?"
             if missing:
                 probs.append(problem("live_node_unregistered", case,
@@ -269,7 +318,14 @@ class World:
                     probs.append(problem("registry_bound_to_other_object", case, expected="get_node_instance(id) is the node",
                                          observed=h.name, op=kind))
                     break
-        ids = [h.id for h in H]
+        for f in self.forgotten:
+            if f[2]:
+                got_n = Node.get_node_instance(f[0])
+                if got_n is None or got_n.name != f[1]:
+                    probs.append(problem("live_node_unregistered", case, expected=f"retrievable by id: {f[1]}",
+                                         observed=repr(got_n)[:60], op=kind))
+                    break
+        ids = [h.id for h in H] + [f[0] for f in self.forgotten]
         if len(set(ids)) != len(ids):
             probs.append(problem("id_collision", case, expected="pairwise distinct ids", observed="duplicate id", op=kind))
         return probs
@@ -284,7 +340,15 @@ def replay_history(history):
     return w
 
 
+_FROZEN = []
+
+
 def expand(item):
+    if not _FROZEN:
+        import gc
+        gc.collect()
+        gc.freeze()
+        _FROZEN.append(1)
     config, history = item
     w = replay_history(history)
     key = w.canon()
